@@ -25,7 +25,7 @@ func (c11) Info() core.Info {
 		Level: "exploration",
 		Rule: "seeded operation histories (set, update, delete, merge with +, rest, range slicing, literal with duplicate keys, rebuild in permuted order) over a per-run universe of 3..16 keys of mixed types (incl. int/float twins such as 1 and 1.0, which are one key whose first-stored representative must stay) " +
 			"(ints, floats, strings, booleans, nil, small arrays), applied in lock-step to (a) object.Map through the Go API, (b) a variable of a real grol session through source text, (c) an association-list model. " +
-			"After every operation: length, lookup of every universe key, iteration order (first/rest walk and Inspect), equality with a twin built by one canonical literal, and that operands of + are unchanged. " +
+			"Also: raw range bounds (negative, beyond either end), assignments whose index expression fails, and in 30% of the runs every language-level operation is issued from inside a function on the outer map. After every operation: length, lookup of every universe key, iteration order (first/rest walk and Inspect), equality with a twin built by one canonical literal, and that operands of + are unchanged. " +
 			"The model's cross-type key rank is learned once per run from one canonical build (history independence), the order within numbers/strings/booleans is checked independently. " +
 			"distinct = distinct sequence of (operation, size class before, size class after); non-trivial = the map crossed the 4-pair threshold at least once (promotion or demotion).",
 		Real:        []string{"object.SmallMap/BigMap (Get, Set, Delete, Append, First, Rest, Range, Len, Inspect)", "object.Equals/Cmp", "evaluator paths for m[k]=v, del(), +, first/rest, slicing, map literals, ==", "repl.EvalOne"},
@@ -281,9 +281,18 @@ func (c11) Execute(h *core.History) *core.Outcome {
 		var cur object.Object = canonMap
 		pos := 0
 		for object.Len(cur) > 0 {
-			f := object.First(cur).(object.Map)
-			v, _ := f.Get(object.ValueKey)
-			mod.rank[int(v.(object.Integer).Value)] = pos
+			f, isMap := object.First(cur).(object.Map)
+			var v object.Object
+			if isMap {
+				v, _ = f.Get(object.ValueKey)
+			}
+			iv, isInt := v.(object.Integer)
+			if !isInt {
+				fail(-1, "canonical-build", fmt.Sprintf("first() of the canonical map %s is not a {key, value} pair with the stored integer", canonMap.Inspect()))
+				st.Shape = "canon"
+				return o
+			}
+			mod.rank[int(iv.Value)] = pos
 			pos++
 			cur = object.Rest(cur)
 		}
